@@ -4,7 +4,7 @@ import (
 	"go/token"
 	"go/types"
 
-	"golang.org/x/tools/go/ssa"
+	"ikeverif/checker/xt/ssa"
 )
 
 // Interprocedural facts of E1 (closed world), so that extracting a helper function does not lose a proof:
